@@ -223,7 +223,10 @@ def r07_3(ctx: Ctx):
         if isinstance(n, ast.Call) and isinstance(n.func, ast.Attribute) and n.func.attr == "get" and n.args and canon(n.args[0], defs) in keys:
             idx.append(n)
             tables.append(n.func.value)
-    if not idx:
+    isinst = [c for c in body_walk(f.node) if isinstance(c, ast.Call) and norm(c.func) in ("isinstance", "issubclass") and c.args and canon(c.args[0], defs) in (f.params()[0], f"type({f.params()[0]})")]
+    if not idx and isinst:
+        st = VIOLATION  # first isinstance match in table order instead of the exact config class
+    elif not idx:
         st = INCONCLUSIVE
     else:
         tt = canon(tables[0], defs)
@@ -233,7 +236,7 @@ def r07_3(ctx: Ctx):
             st = VIOLATION  # only the user's table is consulted
         else:
             st = INCONCLUSIVE
-    obs.append(ctx.ob("R07.3", f, idx[0] if idx else f.node, status=st, detail="engine class = registry[type(config)]" if st == OK else "the engine is not looked up by type(config) in a table containing the built-in registry" if st == VIOLATION else "cannot find the registry lookup by type(config)", construct="lookup"))
+    obs.append(ctx.ob("R07.3", f, idx[0] if idx else f.node, status=st, detail="engine class = registry[type(config)]" if st == OK else ("the engine is chosen by the first isinstance() match in table order, not by the exact class of the level config (a derived config class gets its base class's engine)" if (not idx and isinst) else "the engine is not looked up by type(config) in a table containing the built-in registry") if st == VIOLATION else "cannot find the registry lookup by type(config)", construct="lookup"))
     # the looked-up class is instantiated with the init args built from the parameters
     dia = [c for c in body_walk(f.node) if isinstance(c, ast.Call) and norm(c.func) == "DemeInitArgs"]
     if len(dia) != 1:
@@ -633,22 +636,34 @@ def r07_8(ctx: Ctx):
         elif len(appends) == 1 and appends[0].args:
             a = appends[0].args[0]
             r = res_s(a)
-            if isinstance(r, ast.Call) and norm(r.func).endswith("Individual") and (r.args or _kw(r, "genome") is not None):
-                g0 = res_s(r.args[0] if r.args else _kw(r, "genome"))
-                g0t = canon(g0, alld)
-                if g0t.endswith("sprout_seed.genome") or re.fullmatch(r"(np\.)?(copy|array|asarray)\([A-Za-z_0-9.]*sprout_seed\.genome\)|[A-Za-z_0-9.]*sprout_seed\.genome\.copy\(\)", g0t):
-                    st_app = OK
-                else:
-                    why = f"the appended individual's genome is `{norm(g0)}`, not the seed's genome"
-            elif canon(r, alld).endswith("sprout_seed"):
-                st_app = OK
-            else:
-                st_app, why = INCONCLUSIVE, f"cannot tell what `{norm(a)}` appended to the seeded population is"
+
+            def seed_ind_status(r):
+                """OK / VIOLATION / INCONCLUSIVE for one expression appended as the seed individual"""
+                if isinstance(r, ast.IfExp):
+                    sts = [seed_ind_status(res_s(r.body)), seed_ind_status(res_s(r.orelse))]
+                    return (VIOLATION, sts[0][1] if sts[0][0] == VIOLATION else sts[1][1]) if VIOLATION in (sts[0][0], sts[1][0]) else (INCONCLUSIVE, sts[0][1] or sts[1][1]) if INCONCLUSIVE in (sts[0][0], sts[1][0]) else (OK, "")
+                if isinstance(r, ast.Call) and norm(r.func).endswith("Individual") and (r.args or _kw(r, "genome") is not None):
+                    g0 = res_s(r.args[0] if r.args else _kw(r, "genome"))
+                    g0t = canon(g0, alld)
+                    if g0t.endswith("sprout_seed.genome") or re.fullmatch(r"(np\.)?(copy|array|asarray)\([A-Za-z_0-9.]*sprout_seed\.genome\)|[A-Za-z_0-9.]*sprout_seed\.genome\.copy\(\)", g0t):
+                        return OK, ""
+                    if "sprout_seed" not in g0t or isinstance(g0, ast.BinOp):
+                        return VIOLATION, f"the appended individual's genome is `{norm(g0)[:60]}`, not the seed's genome"
+                    return INCONCLUSIVE, f"cannot tell whether `{norm(g0)[:60]}` is the seed's genome"
+                if canon(r, alld).endswith("sprout_seed"):
+                    return OK, ""
+                if isinstance(r, ast.Subscript):
+                    return VIOLATION, f"`{norm(r)[:60]}` (an element of a population) is appended instead of the seed"
+                return INCONCLUSIVE, f"cannot tell what `{norm(a)}` appended to the seeded population is"
+
+            st_app, w2 = seed_ind_status(r)
+            why = w2 or why
         elif len(appends) > 1:
             st_app, why = INCONCLUSIVE, "several appends to the seeded population"
         else:
             # other ways of joining the seed (concatenation, insert, list literal): not recognised
-            others = [c for s in seeded for c in ast.walk(s) if isinstance(c, (ast.Call, ast.BinOp, ast.AugAssign)) and pop_names[0] in {x.id for x in ast.walk(c) if isinstance(x, ast.Name)} and "sprout_seed" in canon(c, alld)]
+            seedish = {nm for nm, ds in bdefs.items() if any("sprout_seed" in norm(dd) for dd in ds) and nm != pop_names[0]}
+            others = [c for s in seeded for c in ast.walk(s) if isinstance(c, (ast.Call, ast.BinOp, ast.AugAssign)) and c is not s_calls[0] and pop_names[0] in {x.id for x in ast.walk(c) if isinstance(x, ast.Name)} and ("sprout_seed" in norm(c) or seedish & {x.id for x in ast.walk(c) if isinstance(x, ast.Name)})]
             if others:
                 st_app, why = INCONCLUSIVE, f"the seed seems to join the population through `{norm(others[0])[:60]}` (unrecognised form)"
         # the append must be unconditional within the seeded branch
